@@ -22,6 +22,10 @@ input leaves the modelled domain (a vertex without three coordinates, a negative
 ATTRIBUTES (`geogram_ascii.py: import_attribute`): the loop over the elements, the row of element i (inner append loop or the equivalent
 slice), the EXACT comparison `val[0] != attr.default_value` and the scalar / vector stores -> Generated/C04Attr.lean over the sparse
 attribute model of Model/IOSourceAttr.lean (theorem: any default, every value reads back).
+GEOGRAM WRITER PART (`geogram_ascii.py: export_attribute`, and the markers of `is_chunk_header`): header lines (a value between double
+quotes is one token), loops over elements / components, bool through `int()` -> Generated/C04GeoW.lean over the attribute view `AView`
+(Model/IOSourceGeo.lean); bridge: = `chunkLines (attrChunk g)` of the chunk model.  `export_geogram_ascii`, `Chunk.__init__`,
+`import_geogram_ascii` are NOT compiled.
 WRAPPERS (`import_obj`, `import_off`, `import_tet`, `export_stl`, `import_stl`): which parser / writer is called on what -> Generated/C04Wrap.lean.
 GLUE (`mesh.py: load`, `save`): statement by statement into Generated/C04Glue.lean (`load`: read, raw switch, instantiate; `save`: order
 adjacency-for-geogram / re-wrap / ignore block / write; the guards of the ignore block are the table of Generated/C04Save.lean).
@@ -1607,3 +1611,120 @@ def wrappers():
                "  if ascii then asciiResult\n  else match ext with\n    | none => none\n    | some (vs, fs) => some { verts := vs, faces := fs }\n")
     out.append("end Mouette.Generated.C04Wrap\n")
     return "\n".join(out), detail
+
+
+# ------------------------------------------------------------------------------------------------------------------
+# generated file: geogram_ascii.py export_attribute, is_chunk_header
+# ------------------------------------------------------------------------------------------------------------------
+def geo_writer():
+    """`geogram_ascii.py: export_attribute(f, size, container, attr, attr_name)` statement by statement, and the chunk markers of
+    `is_chunk_header` -> Generated/C04GeoW.lean.
+    The attribute is seen through `AView` (Model/IOSourceGeo.lean): `attr.type`, `attr.elemsize`, the text `'{}'.format(attr[i][j])` and the
+    text of `int(attr[i][j])`.  A value written between double quotes is ONE token (`quoted`); a value alone on its line is a token; anything
+    else glued to a placeholder, a format spec, `str()` -> TranslateError."""
+    tree, _ = T.load("mouette/mesh/io/geogram_ascii.py")
+    fn = T.find_def(tree, "export_attribute")
+    ps = [a.arg for a in fn.args.args]
+    if len(ps) != 5: raise TranslateError("export_attribute: expected (f, size, container, attr, attr_name)")
+    f, size, container, attr, aname = ps
+    body = norm_body(fn)
+    name = "export_attribute"
+
+    def value(e, env):
+        """a formatted value -> lean Tok expr (`quoted` decided by the caller)"""
+        u = ast.unparse(e)
+        if u == container: return ("str", "container")
+        if u == aname: return ("str", "attrName")
+        if u == f"{attr}.type.to_string()": return ("str", "typeString a.typ")
+        if u == f"{attr}.type.byte_size()": return ("tok", "fmtI (byteSize a.typ)")
+        if u == f"{attr}.elemsize": return ("tok", "fmtI a.dim")
+        i, j = env.get("i"), env.get("j")
+        if i and u == f"{attr}[{i}]": return ("tok", f"a.fmt {env['li']} 0")
+        if i and u == f"int({attr}[{i}])": return ("tok", f"a.asInt {env['li']} 0")
+        if i and j and u == f"{attr}[{i}][{j}]": return ("tok", f"a.fmt {env['li']} {env['lj']}")
+        if i and j and u == f"int({attr}[{i}][{j}])": return ("tok", f"a.asInt {env['li']} {env['lj']}")
+        raise TranslateError(f"{name}: written value `{u[:50]}` not recognised")
+
+    def parts(e, env):
+        """string expression -> list of ('lit', s) | ('val', kind, lean)"""
+        if isinstance(e, ast.Constant) and isinstance(e.value, str): return [("lit", e.value)]
+        if isinstance(e, ast.JoinedStr):
+            out = []
+            for v in e.values:
+                if isinstance(v, ast.Constant): out.append(("lit", v.value))
+                elif isinstance(v, ast.FormattedValue) and v.conversion == -1 and v.format_spec is None: out.append(("val",) + value(v.value, env))
+                else: raise TranslateError(f"{name}: format spec / conversion in `{ast.unparse(e)[:50]}`")
+            return out
+        if isinstance(e, ast.Call) and isinstance(e.func, ast.Attribute) and e.func.attr == "format" and isinstance(e.func.value, ast.Constant) and not e.keywords:
+            out, k = [], 0
+            for lit, nm, spec, conv in string.Formatter().parse(e.func.value.value):
+                if lit: out.append(("lit", lit))
+                if nm is not None:
+                    if nm != "" or spec or conv or k >= len(e.args): raise TranslateError(f"{name}: placeholder not plain `{{}}` in `{ast.unparse(e)[:50]}`")
+                    out.append(("val",) + value(e.args[k], env)); k += 1
+            if k != len(e.args): raise TranslateError(f"{name}: placeholders / arguments mismatch in `{ast.unparse(e)[:50]}`")
+            return out
+        raise TranslateError(f"{name}: string expression `{ast.unparse(e)[:50]}` not recognised")
+
+    def lines_of(e, env):
+        """one datum per line: each line is a literal word, a bare value, or a value between double quotes"""
+        ps_ = parts(e, env)
+        lines, cur = [], []
+        for p in ps_:
+            if p[0] == "lit":
+                chunks = p[1].split("\n")
+                for k, c in enumerate(chunks):
+                    if k > 0: lines.append(cur); cur = []
+                    if c: cur.append(("lit", c))
+            else: cur.append(p)
+        if cur: raise TranslateError(f"{name}: write(`{ast.unparse(e)[:40]}`) does not end a line")
+        out = []
+        for ln in lines:
+            if len(ln) == 1 and ln[0][0] == "lit" and len(ln[0][1].split()) == 1: out.append(f"([{_word(ln[0][1].strip())}] : Line)")
+            elif len(ln) == 1 and ln[0][0] == "val" and ln[0][1] == "tok": out.append(f"([{ln[0][2]}] : Line)")
+            elif len(ln) == 3 and ln[0] == ("lit", '"') and ln[2] == ("lit", '"') and ln[1][0] == "val" and ln[1][1] == "str": out.append(f"([quoted ({ln[1][2]})] : Line)")
+            elif not ln: raise TranslateError(f"{name}: empty line written")
+            else: raise TranslateError(f"{name}: line `{ln}` is not one datum (a word, a value, or a value between double quotes)")
+        return out
+
+    def cond(t):
+        u = ast.unparse(t)
+        if u == f"{attr}.elemsize == 1": return "(a.dim == 1)"
+        if u == f"{attr}.type == Attribute.Type.Bool": return "(a.typ == AType.bool)"
+        raise TranslateError(f"{name}: condition `{u[:50]}` not recognised")
+
+    def block(stmts, env, ind):
+        pad = "  " * ind
+        if not stmts: return "([] : File)"
+        s, rest = stmts[0], stmts[1:]
+        if isinstance(s, ast.Expr) and isinstance(s.value, ast.Call) and ast.unparse(s.value.func) == f"{f}.write" and len(s.value.args) == 1:
+            return "[" + ", ".join(lines_of(s.value.args[0], env)) + f"] ++\n{pad}" + block(rest, env, ind)
+        if isinstance(s, ast.If):
+            return (f"(if {cond(s.test)} then\n{pad}    ({block(s.body, env, ind + 2)})\n{pad}  else\n{pad}    ({block(s.orelse, env, ind + 2)})) ++\n{pad}" + block(rest, env, ind))
+        if isinstance(s, ast.For) and not s.orelse and isinstance(s.target, ast.Name):
+            u = ast.unparse(s.iter)
+            env2 = dict(env)
+            if u == f"range({size})" and "i" not in env: env2.update(i=s.target.id, li="i"); v, l = "i", "List.range size"
+            elif u == f"range({attr}.elemsize)" and "i" in env and "j" not in env: env2.update(j=s.target.id, lj="j"); v, l = "j", "List.range a.dim"
+            else: raise TranslateError(f"{name}: loop `for {s.target.id} in {u[:40]}` not recognised")
+            return f"List.flatMap (fun ({v} : Nat) =>\n{pad}    {block(s.body, env2, ind + 2)}) ({l}) ++\n{pad}" + block(rest, env, ind)
+        raise TranslateError(f"{name}: statement not recognised: `{ast.unparse(s)[:60]}`")
+    txt_attr = block(body, {}, 1)
+    # ---- is_chunk_header: `"[HEAD]" in line or "[ATTS]" in line or "[ATTR]" in line`
+    hb = norm_body(T.find_def(tree, "is_chunk_header"))
+    line = T.find_def(tree, "is_chunk_header").args.args[0].arg
+    if not (len(hb) == 1 and isinstance(hb[0], ast.Return) and isinstance(hb[0].value, ast.BoolOp) and isinstance(hb[0].value.op, ast.Or)):
+        raise TranslateError("is_chunk_header: body is not `return \"…\" in line or …`")
+    marks = []
+    for v in hb[0].value.values:
+        if not (isinstance(v, ast.Compare) and len(v.ops) == 1 and isinstance(v.ops[0], ast.In) and isinstance(v.left, ast.Constant) and isinstance(v.left.value, str)
+                and ast.unparse(v.comparators[0]) == line):
+            raise TranslateError(f"is_chunk_header: operand `{ast.unparse(v)[:40]}` is not `\"[…]\" in line`")
+        marks.append(v.left.value)
+    txt = ("import Mouette.Model.IOSourceGeo\nnamespace Mouette.Generated.C04GW\nopen Mouette.IO Mouette.IO.Geo Mouette.IOS\n\n"
+           "/-- `geogram_ascii.py: export_attribute(f, size, container, attr, attr_name)` -/\n"
+           "def exportAttribute (size : Nat) (container attrName : String) (a : AView) : File :=\n  " + txt_attr + "\n\n"
+           "/-- `geogram_ascii.py: is_chunk_header`: the markers that start a chunk (sorted: `or` is commutative) -/\n"
+           "def chunkMarkers : List String := [" + ", ".join(lean_str(m) for m in sorted(marks)) + "]\n\n"
+           "end Mouette.Generated.C04GW\n")
+    return txt, {"export_attribute": "ok", "is_chunk_header": sorted(marks)}
